@@ -14,7 +14,7 @@ import (
 // lexer rule table and the shunting-yard loop condition.
 
 func init() {
-	register("C09", "Decides structural necessary conditions of 'an expression means the same as its parenthesised form; layout does not matter; malformed input is rejected': (T0) the shunting-yard pops only on strictly greater precedence, read from its loop condition; (T1) every nullary operator a lexer rule can emit binds tighter than every infix operator; (T2) every one-argument prefix function binds tighter than every infix operator and than the two implicit operators inserted after its ')' (SHORT_PIPE, TRAVERSE_ARRAY); (T3) every token flagged CheckForPostTraverse binds tighter than both implicit operators; (T4) the order induced by Precedence on the infix operators equals the reference order of the documented precedence table; (T5) layout: whitespace class contains space/tab/LF, a dropping comment rule exists, no rule is nullable, and a layout character ends a bare path token; (T6) the bracket-matching and arity guards of ConvertToPostfix/createExpressionTree keep their rejection regions (interval reasoning over len(stack)). Does NOT decide that both spellings evaluate equally on every input.", runC09)
+	register("C09", "Decides structural necessary conditions of 'an expression means the same as its parenthesised form; layout does not matter; malformed input is rejected': (T0) the shunting-yard pops only on strictly greater precedence, read from its loop condition; (T1) every nullary operator a lexer rule can emit binds tighter than every infix operator; (T2) every one-argument prefix function binds tighter than every infix operator and than the two implicit operators inserted after its ')' (SHORT_PIPE, TRAVERSE_ARRAY); (T3) every token flagged CheckForPostTraverse binds tighter than both implicit operators; (T4) the order induced by Precedence on the infix operators equals the reference order of the documented precedence table; (T5) layout: whitespace class contains space/tab/LF, a dropping comment rule exists, no rule is nullable, and a layout character ends a bare path token; (T6) the bracket-matching and arity guards of ConvertToPostfix/createExpressionTree keep their rejection regions (interval reasoning over len(stack)). (T9) a token whose lexeme ends with ')' is flagged CheckForPostTraverse like the ')' token (four known findings). Does NOT decide that both spellings evaluate equally on every input.", runC09)
 }
 
 // T4 reference: the precedence table as an order on classes (lowest first).
